@@ -28,9 +28,11 @@ GenPoolLong == [name |-> "gq", vt |-> "v0", lockStart |-> 0, lockEnd |-> 4, init
 Setup4 == [BaseSetup EXCEPT !.pools = [@ EXCEPT !["o1"] = <<GenPoolLong, GenPool>>]] @@ [id |-> 4]
 \* r2 is an SDK delayed vesting account with 12 locked until t = 3: split / move out of it, sends and creations onto it must be refused
 Setup5 == [BaseSetup EXCEPT !.acct = [@ EXCEPT !["r2"] = Delayed(C1(12), 3)], !.bal = [@ EXCEPT !["r2"] = C1(12)]] @@ [id |-> 5]
-TraceSetups == {Setup1, Setup2, Setup3, Setup4, Setup5}
+\* r2 is an SDK permanent locked account
+Setup6 == [BaseSetup EXCEPT !.acct = [@ EXCEPT !["r2"] = PermLocked(C1(9))], !.bal = [@ EXCEPT !["r2"] = C1(15)]] @@ [id |-> 6]
+TraceSetups == {Setup1, Setup2, Setup3, Setup4, Setup5, Setup6}
 MCSetups == IF Cardinality(Denoms) > 1 THEN {Setup2, Setup3}
-            ELSE IF TrySet = "pools" THEN {Setup1, Setup4} ELSE {Setup1, Setup2, Setup5}
+            ELSE IF TrySet = "pools" THEN {Setup1, Setup4} ELSE {Setup1, Setup2, Setup5, Setup6}
 
 Half == P \div 2
 MCVTypes == { [name |-> "v0", lockup |-> 0, vesting |-> 4, free |-> 0],
